@@ -1231,6 +1231,11 @@ archive_acl_from_text_w(struct archive_acl *acl, const wchar_t *text,
 			st = field[n].start + 1;
 			len = field[n].end - field[n].start;
 
+			if (len == 0) {
+				ret = ARCHIVE_WARN;
+				continue;
+			}
+
 			switch (*s) {
 			case L'u':
 				if (len == 1 || (len == 4
